@@ -17,7 +17,10 @@ PHASES = ["fresh", "after-service", "after-failure", "after-partial", "after-par
           "gss-keyex-no-context", "gss-keyex-no-context-partial", "gss-keyex-disabled", "gss-keyex-context-app-rejects",
           "gss-keyex-context-bad-mic", "gss-with-mic-disabled", "gss-with-mic-bad-mechanism",
           # the server has begun a key re-exchange (KEXINIT sent, in_kex) and the client's message is already in flight
-          "fresh+in-kex", "after-failure+in-kex", "after-partial+in-kex"]
+          "fresh+in-kex", "after-failure+in-kex", "after-partial+in-kex",
+          # every publickey request is judged on its own (username, key, signature): a probe of key A answered PK_OK,
+          # then a validly signed request with ANOTHER key of the same algorithm that the application rejects / half-accepts
+          "probe-A-then-signed-B-rejected", "probe-A-then-signed-B-partial", "probe-A-partial-then-signed-A-rejected"]
 # phases that need a server whose key exchange left a GSS context (Transport(gss_kex=True) over the stub)
 NEEDS_CTX = {"gss-keyex-context-app-rejects", "gss-keyex-context-bad-mic"}
 
@@ -56,6 +59,14 @@ def phase_prefix(gen, phase, sid):
         return [L.mk_step(gen, 50, S(user, b"ssh-connection", b"keyboard-interactive", b"", b""),
                           {"r_inter": ("query", "t", "i", [("Password: ", False)])}),
                 L.mk_step(gen, 61, S(1, b"answer"), {"r_iresp": 1})]
+    if phase.startswith("probe-A"):
+        a_key = L.client_keys()[1][0]                    # ecdsa-sha2-nistp256
+        b_key = L.second_key_same_algorithm()            # another key, same algorithm name
+        algo = "ecdsa-sha2-nistp256"
+        if phase == "probe-A-partial-then-signed-A-rejected":
+            return [L.pk_step(gen, sid, user, a_key, algo, False, 1), L.pk_step(gen, sid, user, a_key, algo, True, 2)]
+        second = 2 if phase.endswith("rejected") else 1
+        return [L.pk_step(gen, sid, user, a_key, algo, False, 0), L.pk_step(gen, sid, user, b_key, algo, True, second)]
     if phase == "after-key-probe":
         key = L.client_keys()[0][0]
         payload = S(user, b"ssh-connection", b"publickey", False, b"ssh-ed25519", key.asbytes())
@@ -145,10 +156,10 @@ def oracle(ctx, tr):
 
 
 def run(ctx):
-    ctx.rule = ("(a) every type 80..100 x 20 phases (fresh, after service request, after a failed attempt, after a PARTIAL "
+    ctx.rule = ("(a) every type 80..100 x 23 phases (fresh, after service request, after a failed attempt, after a PARTIAL "
                 "success of each method kind - password, validly signed publickey, keyboard-interactive verdict, info "
                 "response - after a key probe, during keyboard-interactive, during GSS exchange, and after raw gssapi-keyex / "
-                "gssapi-with-mic requests against servers with enable_auth_gssapi true/false, with/without a GSS kex context; and while the server is in the middle of a key re-exchange it started itself - "
+                "gssapi-with-mic requests against servers with enable_auth_gssapi true/false, with/without a GSS kex context; and while the server is in the middle of a key re-exchange it started itself; and after a key probe followed by a signed request with another key of the same algorithm - "
                 "KEXINIT sent, the client's answer held back - fresh / after a failed / after a partial attempt) with structured or random payloads, followed "
                 "by a password attempt; (b) random sessions of 1-12 messages, 45% connection-layer. distinct = distinct "
                 "(message, outcome) sequences; non-trivial = a type 80..100 arrived while the server was alive and "
@@ -158,6 +169,7 @@ def run(ctx):
     ctx.assume("connection-layer handlers after authentication and kex-layer handlers are delegated (not modelled); "
                "the server application itself opens no channel before authentication")
     tables = L.gen_tables(ctx)
+    L.check_source_facts(ctx)
     ctx.build(extra_modules=["PV.Model.AuthServerDriver"])
     rng = ctx.rng
     makers = []
@@ -165,7 +177,7 @@ def run(ctx):
     for _ in range(reps):
         for phase in PHASES:
             types = list(range(80, 101))
-            if not ctx.thorough and phase.startswith("gss-") and phase != "gss-exchange":
+            if not ctx.thorough and (phase.startswith("probe-A") or (phase.startswith("gss-") and phase != "gss-exchange")):
                 # quick tier: the raw-GSS phases get the request types that reach the application plus a sample
                 types = sorted(set([80, 90, 94, 98] + rng.sample(range(80, 101), 4)))
             for p in types:
